@@ -521,9 +521,23 @@ def run_full_registry(chk, rng, stats, n_cli):
             os.chmod(p, os.stat(p).st_mode | stat.S_IXUSR)
             argv0 += ["-ah", "%s=%s" % (t, p)]
             render[("adhoc", t)] = "adhoc_" + t
+        # some aliases refer to other aliases of the same set, to earlier- and later-sorting names alike (acyclic: only
+        # to aliases later in a random permutation): whether an alias resolves must not depend on registration order
+        perm = list(aliases)
+        rng.shuffle(perm)
+        refs = {}
+        for i, t in enumerate(perm):
+            later = perm[i + 1:]
+            if later and rng.random() < 0.6:
+                refs[t] = rng.choice(later)
+        stats["alias_references"] = stats.get("alias_references", 0) + len(refs)
+
+        def alias_render(t):
+            return "alias_" + t + (alias_render(refs[t]) if t in refs else ".txt")
         for t in aliases:
-            argv0 += ["-a", "%s=alias_%s%%Core.Ext()" % (t, t)]
-            render[("alias", t)] = "alias_" + t + ".txt"
+            tail = ("%%%s.%s()" % (rng.choice(["Alias", "alias", "ALIAS"]), refs[t])) if t in refs else "%Core.Ext()"
+            argv0 += ["-a", "%s=alias_%s%s" % (t, t, tail)]
+            render[("alias", t)] = alias_render(t)
         render[("core", "Name")] = "a.txt"
         render[("core", "Ext")] = ".txt"
         render[("core", "Base")] = "a"
